@@ -230,6 +230,7 @@ package http2
 //@   ensures [C19,C13:settings-stream] !(flag(fh.Flags, 1) && fh.Length > 0) && fh.StreamID != 0 ==> isConnErr(err, 1)
 //@   ensures [C19,C13:settings-mod6] !(flag(fh.Flags, 1) && fh.Length > 0) && fh.StreamID == 0 && len(p) % 6 != 0 ==> isConnErr(err, 6)
 //@   ensures [C12:settings-window-too-big] !(flag(fh.Flags, 1) && fh.Length > 0) && fh.StreamID == 0 && len(p) % 6 == 0 && firstSetting(p, 4, len(p)/6) >= 0 && settingVal(p, firstSetting(p, 4, len(p)/6)) > 2147483647 ==> isConnErr(err, 3)
+//@   ensures [C19,C13,C12:every-legal-settings-frame-parses] !(flag(fh.Flags, 1) && fh.Length > 0) && fh.StreamID == 0 && len(p) % 6 == 0 && !(firstSetting(p, 4, len(p)/6) >= 0 && settingVal(p, firstSetting(p, 4, len(p)/6)) > 2147483647) ==> err == nil
 //@   ensures [C19,C13:settings-ok] err == nil ==> isptr(SettingsFrame, f) && unboxptr(SettingsFrame, f) != nil && fresh(unboxptr(SettingsFrame, f)) && val(unboxptr(SettingsFrame, f).FrameHeader) == fh && unboxptr(SettingsFrame, f).p == p && len(p) % 6 == 0
 //@   ensures [C19,C13:error-no-frame] err != nil ==> f == nil
 
